@@ -234,8 +234,10 @@ def check(case, rec=None):
     #     the components of the pixels above the level
     if max(ns, nf) <= 64 and not fails:
         imu = np.clip(np.rint(im), 0, 65535).astype(np.uint16)
+        pos_ = np.unique(imu[imu > 0])
+        pv_ = float(pos_[len(pos_) // 2]) if len(pos_) else 1.0          # a grey level that occurs: the cut sits just below it
         for frac in (0.25, 0.5, 0.75):
-            cutf = float(np.floor(th)) + frac if th >= 0 else frac
+            cutf = pv_ - 1.0 + frac
             ab2 = imu > cutf
             if not ab2.any():
                 continue
